@@ -36,6 +36,14 @@ CHECKS = {
    technique="deterministic simulation with fault injection: exhaustive enumeration of fault positions and shapes per seeded input over simulated reader, writer and database driver",
    text="For each seeded input every position at which the reader, writer or driver can start failing is executed (byte offsets incl. 'instead of EOF', every driver call incl. each Rows.Next), in both shapes ((0,err) and data-with-error / short write), with identity-sensitive error values at every position and a fresh fragmentation plan each time. Oracle: never a panic; fault fired => error reported; no error => result identical to the fault-free run / writer received the complete output. Exhaustive in the fault dimension per input, sampled over inputs.",
    note="Trusted: the stubs obey the io and database/sql/driver contracts; a reference client decides whether database/sql surfaced a driver failure at all. Tx-context cancellation is excluded (not replayable)."),
+ "C04": dict(engine="hashsim", level="exploration", design="§3 C04, C05",
+   technique="deterministic simulation: the hash function and math/rand are simulated environment (seeded hash flavours incl. forced collision patterns); oracle = reference partition/aggregation model",
+   text="Seeded exploration of frames x key columns x Null x hash flavours. The hash function is per-process environment nondeterminism that no test controls; behind the hook the simulator chooses it, so collision chains, growth/rehash timing, 32-bit truncation clashes and hash/equality agreement are exercised on purpose. QFrames() must equal the reference partition (each class in frame order), Aggregate must return one row per class with the class key and every aggregate equal to the fold of exactly that class's values in frame order (recording user functions check the exact slices handed out). Sampling, not proof.",
+   note="Trusted: obs as ground truth; the reference partition encodes the equality the property states (numeric float equality, null/NaN equal only with Null(true)). Hash flavours are deterministic functions of (bytes, seed), i.e. legal replacements."),
+ "C05": dict(engine="hashsim", level="exploration", design="§3 C04, C05",
+   technique="deterministic simulation: seeded hash flavours behind the hash seam; oracle = reference partition, one whole input row per class",
+   text="Same simulated world as C04: Distinct must return exactly one row per class of the reference partition under every hash flavour, each an unmodified input row (matched through a hidden id column, or by content when all columns are the key).",
+   note="Trusted: as C04."),
 }
 
 PENDING = {'C01': 'not claimed yet: the engine for this property is still being built (planned as a deterministic-simulation check, see DESIGN.md §3); it will move to checks when it runs', 'C04': 'not claimed yet: the engine for this property is still being built (planned as a deterministic-simulation check, see DESIGN.md §3); it will move to checks when it runs', 'C05': 'not claimed yet: the engine for this property is still being built (planned as a deterministic-simulation check, see DESIGN.md §3); it will move to checks when it runs', 'C11': 'not claimed yet: the engine for this property is still being built (planned as a deterministic-simulation check, see DESIGN.md §3); it will move to checks when it runs', 'C13': 'not claimed yet: the engine for this property is still being built (planned as a deterministic-simulation check, see DESIGN.md §3); it will move to checks when it runs', 'C14': 'not claimed yet: the engine for this property is still being built (planned as a deterministic-simulation check, see DESIGN.md §3); it will move to checks when it runs', 'C15': 'not claimed yet: the engine for this property is still being built (planned as a deterministic-simulation check, see DESIGN.md §3); it will move to checks when it runs', 'C19': 'not claimed yet: the engine for this property is still being built (planned as a deterministic-simulation check, see DESIGN.md §3); it will move to checks when it runs'}
